@@ -229,6 +229,16 @@ Proof. exact tdevice_line_integral. Qed.
 Theorem C01_source_gdevice_deriv : forall n g (s p : list R), length s = n -> length p = n ->
   GDevice_deriv (A:=R) n g s p = gdev_deriv g s p.
 Proof. exact gen_gdevice_deriv. Qed.
+(* TDevice.deriv regenerated from tdevice.py (Gen/Thermal.v): (sustainment_matrix * dt.reshape(n,1)).sum(axis=0) * where(s < 0, 1/e, e) + p
+   IS the model marginal cost that C01_tdevice / C01_tdevice_total_derivative prove to be the gradient *)
+From DK.Gen Require Import Thermal.
+From DK.Proofs Require Import GenThermal.
+Theorem C01_source_tdevice_deriv : forall n su ef ti to tr te c (s p : list R), length s = n -> length p = n -> length te = n ->
+  TDevice_deriv (A:=R) n su ef ti to tr te c s p = tdev_deriv (tq su ef ti to tr te c) s p.
+Proof. exact gen_tdevice_deriv. Qed.
+Theorem C01_source_tdevice_cost : forall n su ef ti to tr te c (s p : list R), length s = n -> length p = n -> (0 < n)%nat ->
+  TDevice_cost (A:=R) n su ef ti to tr te c s p = tdev_cost (tq su ef ti to tr te c) s p.
+Proof. exact gen_tdevice_cost. Qed.
 
 (* ---- sums over contiguous slot ranges: if every summand has a total derivative on its own range, so has the sum, and it is the
    concatenation of the per-range gradients; hence CDevice2 with ANY number of contiguous cumulative ranges. Proofs/RangedTotal.v ---- *)
